@@ -24,7 +24,7 @@ func GlobalName(name string) string {
 	// global IDs; e.g.
 	//
 	//    @"2"
-	if _, err := strconv.ParseUint(name, 10, 64); err == nil {
+	if isNumeric(name) {
 		return `@"` + name + `"`
 	}
 	return "@" + EscapeIdent(name)
@@ -63,7 +63,7 @@ func LocalName(name string) string {
 	// local IDs; e.g.
 	//
 	//    %"2"
-	if _, err := strconv.ParseUint(name, 10, 64); err == nil {
+	if isNumeric(name) {
 		return `%"` + name + `"`
 	}
 	return "%" + EscapeIdent(name)
@@ -102,7 +102,7 @@ func LabelName(name string) string {
 	// label IDs; e.g.
 	//
 	//    "2":
-	if _, err := strconv.ParseUint(name, 10, 64); err == nil {
+	if isNumeric(name) {
 		return `"` + name + `":`
 	}
 	return EscapeIdent(name) + ":"
@@ -166,6 +166,11 @@ func AttrGroupID(id int64) string {
 //
 //	http://www.llvm.org/docs/LangRef.html#identifiers
 func ComdatName(name string) string {
+	// Numeric comdat names are quoted; an unquoted comdat name may not start
+	// with a digit.
+	if isNumeric(name) {
+		return `$"` + name + `"`
+	}
 	return "$" + EscapeIdent(name)
 }
 
@@ -226,6 +231,13 @@ const (
 	// ASCII characters.
 	quotedIdent = " !#$%&'()*+,-./0123456789:;<=>?@ABCDEFGHIJKLMNOPQRSTUVWXYZ[]^_`abcdefghijklmnopqrstuvwxyz{|}~"
 )
+
+// isNumeric reports whether name consists only of decimal digits (of any
+// length, i.e. also when the number does not fit in 64 bits); such a name must
+// be quoted to distinguish it from an unnamed ID.
+func isNumeric(name string) bool {
+	return len(name) > 0 && strings.Trim(name, decimal) == ""
+}
 
 // EscapeIdent replaces any characters which are not valid in identifiers with
 // corresponding hexadecimal escape sequence (\XX).
